@@ -89,6 +89,7 @@ def job_replay_record(prop, job, result, violation, original_len):
         "expected": {"signature": sig_of(violation), "step": violation.get("step"),
                      "detail": violation.get("detail")},
         "original_steps": original_len,
+        "timeout": job.get("timeout"),
         "repo_head": _repo_head(),
     }
 
@@ -207,7 +208,7 @@ def replay_file(path):
            "env": rec.get("env"), "params": rec["params"], "steps": rec["steps"],
            "ref": rec.get("ref"), "timeout": 900, "want_events": True}
     if rec["expected"]["signature"].get("class") == "liveness":
-        job["timeout"] = 600
+        job["timeout"] = float(rec.get("timeout") or 300)
         res = host.run_jobs([job])[0]
         if res.get("harness_timeout"):
             res["violations"] = [{"class": "liveness", "detail": "the run does not terminate"}]
